@@ -16,8 +16,10 @@ ACTS = list(Action)
 
 def tags(n):
     base = gen.all_objects(depth=0)
-    objs = base + [(gen.TY['Box'], 0, 0, b) for b in base]
-    assert len(objs) >= n, len(objs)
+    objs, layer = list(base), list(base)
+    while len(objs) < n:            # boxes of boxes of ...: as many pairwise distinct objects as the largest grid needs
+        layer = [(gen.TY['Box'], 0, 0, b) for b in layer]
+        objs += layer
     return objs[:n]
 
 
